@@ -17,7 +17,7 @@ def decVal : String → Option Val
   | "deadline" => some .deadline | "panic_err" => some .panicErr | "fetch_err" => some .fetchErr | _ => none
 
 def decFetch : String → Option Fetch | "ok" => some .ok | "err" => some .err | _ => none
-def decDl : String → Option Dl | "none" => some .none | "past" => some .past | "future" => some .future | _ => none
+def decDl : String → Option Dl | "none" => some .none | "past" => some .past | "zero" => some .past | "future" => some .future | _ => none
 def decBeh : String → Option Beh
   | "nil" => some .retNil | "err" => some .retErr | "panic" => some .panic | "block" => some .block
   | "panicerr" => some .panic   -- the panic value is an error wrapping context.Canceled: still a panic
